@@ -299,6 +299,7 @@ def _content_only(ctx) -> None:
     X = ("param", g.params[0])
     gh = (("attr", ("name", "Vector"), "_hash_element"), ("name", "_hash_element"), ("attr", ("param", "cls"), "_hash_element"))
     from ..sites2 import leaves as _leaves
+    from ..symx import flatten_conds
     from ..symx import subterms as _subterms
     for v in [lf for e in gi.events if e.kind == "return" and e.depth == 0 for lf in _leaves(e.term)]:
         for t in _subterms(v):
@@ -350,6 +351,15 @@ def _content_only(ctx) -> None:
                 if reach(tuple(e.conds) + tuple(lconds), kind):
                     nanp.append(f"`return {show(leaf, gi)[:40]}` is reached by a {kind} NaN: hash() of a NaN depends on the object's address, "
                                 f"so equal contents get different fingerprints")
+    # an element is classified by its TYPE, never by an attribute it happens to have: `hasattr(x, 'fingerprint')` takes any object with a
+    # method of that name (a certificate, a key) for a nested vector - its own fingerprint() then replaces hash(x) (a constant one hides
+    # every change; a string one makes fingerprint() raise)
+    duck = [e for e in gi.events for c, _pol in flatten_conds(e.conds) for x_ in _subterms(c)
+            if x_[0] == "call" and x_[1] in (("name", "hasattr"), ("name", "getattr")) and x_[2] and x_[2][0] == X]
+    ctx.ob("c.content-only", g, "classified-by-type", not duck, "no branch of the element hash depends on hasattr / getattr of the element",
+           (duck[0].node if duck else g.node),
+           message="Vector._hash_element decides by `hasattr(x, ...)`: an element of any class that happens to have that attribute (a method named "
+                   "fingerprint) is hashed through it, not by its value - equal / unequal contents no longer decide the fingerprint")
     ctx.ob("c.content-only", g, "nan-by-value", not nanp, "no hash(x) is taken of a float / complex / Decimal NaN", g.node, message="; ".join(nanp[:2]))
 
 
@@ -655,6 +665,9 @@ def _pure(ctx) -> None:
 
 _V = "vector"
 MUTANTS = [
+    dict(id="nested-vector-by-attribute", module="vector", old="		if isinstance(x, Vector):\n			# (by type, not by attribute",
+         new="		if hasattr(x, \"fingerprint\") and callable(getattr(x, \"fingerprint\")):\n			# (by type, not by attribute", rules=["c.content-only"],
+         desc="reverts fix 9b51b8c"),
     dict(id="decimal-nan-hashed-by-identity", module="vector", old="			if _is_nan_like(x):\n", new="			if False:\n",
          rules=["c.content-only"], desc="reverts fix 5829442"),
     dict(id="setitem-no-invalidate", module=_V, old="		self._invalidate_fp()\n		_alias.register", new="		_alias.register",
